@@ -88,3 +88,15 @@ Theorem C05_pnpm_covers_value :
   forall p, In p pkgs -> slice content (p_start p) (p_end p) = Some (p_version p) /\ p_start p <= p_end p.
 Proof. exact pnpm_locations. Qed.
 Print Assumptions C05_pnpm_covers_value.
+
+(* workflows and composite actions, coverage part: under the hypotheses of C04_github_actions every reported range is
+   exactly the ref text of the uses: value (the tag, or the hash of a hash-pinned step), or it ends in the closing quote
+   of a quoted value - the listed class C05-quoted-uses-range-shifted *)
+From VL Require Import Spec.GhaLoc Proofs.GhaLocProofs.
+Theorem C05_github_actions_covers_ref :
+  forall content root v pkgs,
+  denote_yaml content root = Some v -> gha_regular v = true -> gha_known v = false -> walk_gha content root = Some pkgs ->
+  forall p, In p pkgs ->
+    (slice content (p_start p) (p_end p) = Some (ref_of p) /\ p_start p <= p_end p) \/ ends_quoted content p = true.
+Proof. intros content root v pkgs H1 H2 H3 W p Hin. exact (proj1 (Forall_forall _ _) (gha_locations content root v H1 H2 H3 pkgs W) p Hin). Qed.
+Print Assumptions C05_github_actions_covers_ref.
